@@ -123,7 +123,7 @@ def run(ctx):
     from tdda.constraints import discover_df
     n = 400 if ctx.quick else 12000
     work = T.workdir()
-    payloads, expect = [], []
+    payloads, expect, written = [], [], []
     try:
         for it in range(n):
             nf = rng.randint(1, 3)
@@ -168,6 +168,7 @@ def run(ctx):
             try:
                 c0 = load_from(given)
                 t1 = c0.to_json()
+                written.append((case, c0.to_dict(), t1))
             except Exception as e:
                 ctx.fail(case, 'loading / serialising a documented-format constraint set raised %s: %s'
                          % (type(e).__name__, str(e)[:300]), finding=classify_exc(noisy, e))
@@ -277,6 +278,7 @@ def run(ctx):
             expect.append((case, [(nm, list(d.keys())) for nm, d in parsed['fields'].items()]))
             if it < 2:
                 ctx.sample({'fields': repr(noisy)[:500], 'text': t1[:300]})
+        json_layer(ctx, written)
         mouts = ctx.model.call_many(12, payloads) if ctx.model_ok else []
         for (case, want), mo in zip(expect, mouts):
             ctx.cov['traces_validated_against_impl'] += 1
@@ -291,6 +293,168 @@ def run(ctx):
                        'generated data via dict, path and re-serialised text')
     ctx.assumptions += ['json.dumps/json.loads and the text of numbers/dates are exercised, not modelled; the Coq model '
                         'covers which keys survive loading and the order they are written in']
+
+
+# ---------------------------------------------------------------- the TEXT layer: Constraints/Json.v vs CPython json
+def jv_enc(v):
+    """Python JSON value -> wire form of Json.v's jv (numbers as the token json.dumps writes)."""
+    if v is None:
+        return [0]
+    if v is True or v is False:
+        return [1, v]
+    if isinstance(v, int):
+        return [2, int.__repr__(v)]
+    if isinstance(v, float):
+        return [2, 'NaN' if v != v else 'Infinity' if v == math.inf else '-Infinity' if v == -math.inf else float.__repr__(v)]
+    if isinstance(v, str):
+        return [3, v]
+    if isinstance(v, (list, tuple)):
+        return [4, [jv_enc(x) for x in v]]
+    if isinstance(v, dict):
+        return [5, [[str(k), jv_enc(x)] for k, x in v.items()]]
+    raise TypeError(type(v).__name__)
+
+
+def jv_dec(x):
+    """wire form -> comparable Python value; number tokens are converted as the scanner does (int or float)"""
+    tag = x[0]
+    if tag == 0:
+        return None
+    if tag == 1:
+        return bool(x[1])
+    if tag == 2:
+        tok = dstr(x[1])
+        if tok in ('NaN', 'Infinity', '-Infinity'):
+            return ('float', tok)
+        if any(c in tok for c in '.eE'):
+            return ('float', float.__repr__(float(tok)))
+        return ('int', int(tok))
+    if tag == 3:
+        return ('str', dstr(x[1]))
+    if tag == 4:
+        return [jv_dec(y) for y in x[1]]
+    return ('obj', [(dstr(k), jv_dec(y)) for k, y in x[1]])
+
+
+def py_canon(v):
+    if v is None or v is True or v is False:
+        return v
+    if isinstance(v, int):
+        return ('int', v)
+    if isinstance(v, float):
+        return ('float', 'NaN' if v != v else 'Infinity' if v == math.inf else '-Infinity' if v == -math.inf else float.__repr__(v))
+    if isinstance(v, str):
+        return ('str', v)
+    if isinstance(v, list):
+        return [py_canon(x) for x in v]
+    return ('obj', [(k, py_canon(x)) for k, x in v.items()])
+
+
+JSTRS = ['', 'a', 'a b', 'é', '雪', 'q"q', 'b\\s', 'nl\nx', 'cr\rx', 'tab\tx', '\x08\x0c', '\x00', '\x1f\x1e\x1c', '\x7f', '\x85', '\xa0 ',
+         ' lead', 'trail ', 'trail\t', '\u2028\u2029', '\U0001d518', '/', '\\u0041', 'x\\', '^\\d+$', '{', '[1,2]', ': ', ',', '\ud800',
+         '\udc00x', '#c', 'null', 'NaN']
+JNUMS = [0, 1, -1, 10, 123456789012345678901234567890, -0.0, 0.5, 1e22, 1e-7, 1.5e300, 5e-324, 0.1 + 0.2, 1 / 3, -2.5e-5,
+         float('nan'), float('inf'), float('-inf'), 1e16, 123456.789, 2 ** 63]
+
+
+def gen_json(rng, depth=0):
+    k = rng.random()
+    if depth >= 3 or k < 0.45:
+        r = rng.random()
+        if r < 0.4:
+            return rng.choice(JSTRS) if rng.random() < 0.7 else ''.join(rng.choice(JSTRS) for _ in range(3))
+        if r < 0.75:
+            return rng.choice(JNUMS) if rng.random() < 0.7 else rng.choice([rng.randrange(-10 ** 6, 10 ** 6), rng.uniform(-1e3, 1e3), rng.random() * 10 ** rng.randint(-30, 30)])
+        return rng.choice([None, True, False])
+    if k < 0.7:
+        return [gen_json(rng, depth + 1) for _ in range(rng.choice([0, 1, 2, 3]))]
+    d = {}
+    for _ in range(rng.choice([0, 1, 2, 4])):
+        d[rng.choice(JSTRS + ['k1', 'k2', 'fields', 'type'])] = gen_json(rng, depth + 1)
+    return d
+
+
+def mutate_text(rng, t):
+    """hand-written / damaged variants of a valid JSON text"""
+    k = rng.randrange(12)
+    if k == 0 and t:
+        i = rng.randrange(len(t))
+        return t[:i] + t[i + 1:]
+    if k == 1:
+        i = rng.randrange(len(t) + 1)
+        return t[:i] + rng.choice(['"', '\\', ',', ' ', '\n', '\t', '}', ']', '0', '-', '.', 'e', '\\u00e9', '\\ud834\\udd1e', '\\ud834', '\\/', '\\x',
+                                    '\r', '\x0c', '\x00', 'NaN', 'Infinity', 'nul', 'true', '1.', '01', '+1', '1e', '1E+5', '\u00a0']) + t[i:]
+    if k == 2:
+        return json.dumps(json.loads(t)) if _loads_ok(t) else t          # compact one-line form
+    if k == 3:
+        return json.dumps(json.loads(t), ensure_ascii=True, indent=rng.choice([None, 1, 2])) if _loads_ok(t) else t
+    if k == 4:
+        return t.replace('\n', '\r\n')
+    if k == 5:
+        return ' \t\n' + t + ' \r\n '
+    if k == 6:
+        return t.replace(',', ',,', 1)
+    if k == 7:
+        return t.replace('": ', '" :\t', 1)
+    if k == 8:
+        return t.rstrip()[:-1] + ',' + t.rstrip()[-1:] if t.strip() else t   # trailing comma
+    if k == 9:
+        return '{"k": 1, "k": 2, "j": 3, "k": {"a": 1, "a": [2]}}' if rng.random() < 0.3 else t + t
+    if k == 10:
+        return rng.choice(['', ' ', '[', '{', '"', '-', '[1,]', '{"a"}', '{"a":}', '{1: 2}', '[1 2]', "['a']", '"\t"', '"\\u12"', '"\\u12G4"',
+                           '"\\uD834\\u0041"', '"\\uD834\\uDD1E"', '"\\ud834\\ud834\\udd1e"', '-Infinity', '-Inf', '-0', '-01', '0.5e-3', '1.5E3',
+                           '2e', '2e+', '.5', '1.e3', 'tru', 'nullx', 'null x', '[[[[]]]]', '{"a": {"b": {"c": {}}}}', '\ufeff[]', '[1]x'])
+    return t
+
+
+def _loads_ok(t):
+    try:
+        json.loads(t)
+        return True
+    except Exception:
+        return False
+
+
+def json_layer(ctx, written):
+    """written: [(case, dict given to json.dumps, text returned by to_json)] from the constraint runs."""
+    if not ctx.model_ok:
+        return
+    from tdda.constraints.base import strip_lines
+    from collections import OrderedDict
+    rng = ctx.rng
+    # ---- printing: the model's text for the dictionary is the text to_json returned
+    vals = [(case, d, t) for case, d, t in written]
+    n = 300 if ctx.quick else 8000
+    for _ in range(n):
+        v = gen_json(rng)
+        t = strip_lines(json.dumps(v, indent=4, ensure_ascii=False)) + '\n'
+        vals.append(({'json_value': repr(v)[:1500]}, v, t))
+    outs = ctx.model.call_many(32, [jv_enc(d) for _, d, _ in vals])
+    for (case, d, t), mo in zip(vals, outs):
+        ctx.cov['traces_validated_against_impl'] += 1
+        ctx.count(('J', repr(case)[:3000]), True)
+        ctx.bump('json.print')
+        if dstr(mo) != t:
+            ctx.mismatch('json text written', case, first_diff(t, dstr(mo)), first_diff(dstr(mo), t))
+    # ---- parsing: the model reads every written text, and damaged / hand-written variants, as json.loads does
+    texts = []
+    for case, d, t in vals:
+        texts.append((case, t))
+        for _ in range(2):
+            texts.append((dict(case, variant='hand-written or damaged'), mutate_text(rng, t)))
+    outs = ctx.model.call_many(33, [t for _, t in texts])
+    for (case, t), mo in zip(texts, outs):
+        ctx.cov['traces_validated_against_impl'] += 1
+        try:
+            want = ('ok', py_canon(json.loads(t, object_pairs_hook=OrderedDict)))
+        except RecursionError:
+            continue
+        except Exception:
+            want = ('error',)
+        got = ('error',) if mo == [] else ('ok', jv_dec(mo[0]))
+        ctx.bump('json.parse.' + want[0])
+        if got != want:
+            ctx.mismatch('json text read', dict(case, text=t[:1500]), repr(got)[:600], repr(want)[:600])
 
 
 def strip_meta_text(text):
